@@ -176,6 +176,18 @@ def run(tape):
         else:
             op = ("clear",)
         plan.append({"task": tape.draw(ntasks, "op.task"), "delay": tape.choice(grid, "op.delay"), "op": op, "id": i})
+    # two more things callers really do: (a) give up on a store call (timeout / cancellation) at a tape-chosen moment - a cancelled
+    # call has either taken effect or not, nothing in between; (b) start a task from inside an edit_state block that outlives the
+    # block and writes to the store later
+    for p in plan:
+        p["cancel_after"] = tape.choice([None, None, None, None, 0, 0, 1], "op.cancel")
+    spawned = []
+    for p in list(plan):
+        if p["op"][0] == "inc" and tape.chance(25, 100, "op.spawn"):
+            j = len(plan) + len(spawned)
+            wkind = tape.choice(["replace", "clear", "set"], "spawn.kind")
+            wop = ("replace", {"x": 200 + j}) if wkind == "replace" else (("clear",) if wkind == "clear" else ("set", "c", 50 + j))
+            spawned.append({"task": p["task"], "delay": tape.choice([0, 1, 2, 3], "spawn.delay"), "op": wop, "id": j, "cancel_after": None, "parent": p["id"]})
     td = TmpDir()
 
     async def scenario(world):
@@ -196,21 +208,60 @@ def run(tape):
         spans = {}
         open_edit = [0]
 
+        children: list = []
+        cancelled_ops: set = set()
+
         async def do(st, p):
+            try:
+                return await do_guarded(st, p)
+            except asyncio.CancelledError:
+                raise
+            except Exception as e:  # noqa: BLE001
+                # none of these calls may fail on a healthy store: an error out of the store's own locking / saving is a broken
+                # operation, not a harness problem
+                spans[p["id"]][1] = world.trace.log("op-error", id=p["id"], exc=type(e).__name__)
+                cancelled_ops.add(p["id"])
+                world.violate("C20.op-error", f"{p['op'][0]} (op {p['id']}) raised {type(e).__name__}: {e} ({arrangement})", arrangement=arrangement, exc=type(e).__name__)
+
+        async def do_guarded(st, p):
+            if p.get("cancel_after") is None:
+                return await do_op(st, p)
+            # the caller gives up after cancel_after seconds (plus one loop iteration)
+            t = asyncio.ensure_future(do_op(st, p))
+            await asyncio.sleep(p["cancel_after"])
+            await asyncio.sleep(0)
+            if not t.done():
+                t.cancel()
+                world.fault("store-call-cancelled")
+            try:
+                await t
+            except asyncio.CancelledError:
+                cancelled_ops.add(p["id"])
+                spans[p["id"]][1] = world.trace.log("op-cancelled", id=p["id"], task=p["task"], op=p["op"][0])
+
+        async def do_op(st, p):
             op = p["op"]
             spans[p["id"]] = [world.trace.log("op-start", id=p["id"], task=p["task"], op=op[0]), None]
             if op[0] == "inc":
-                async with st.edit_state() as s:
-                    open_edit[0] += 1
-                    if open_edit[0] >= 2:
-                        world.probe("overlapping-edit-blocks")
-                    v = s.get(op[1], 0)
-                    if op[2]:
-                        await asyncio.sleep(op[2])
-                    else:
-                        await asyncio.sleep(0)
-                    s[op[1]] = v + 1
-                    open_edit[0] -= 1
+                entered = False
+                try:
+                    async with st.edit_state() as s:
+                        entered = True
+                        open_edit[0] += 1
+                        if open_edit[0] >= 2:
+                            world.probe("overlapping-edit-blocks")
+                        v = s.get(op[1], 0)
+                        for c in [c for c in spawned if c["parent"] == p["id"]]:
+                            world.probe("task-spawned-inside-edit-block")
+                            children.append(asyncio.ensure_future(child(st, c)))
+                        if op[2]:
+                            await asyncio.sleep(op[2])
+                        else:
+                            await asyncio.sleep(0)
+                        s[op[1]] = v + 1
+                finally:
+                    if entered:
+                        open_edit[0] -= 1
             elif op[0] == "set":
                 await st.set(op[1], op[2])
             elif op[0] == "replace":
@@ -219,6 +270,13 @@ def run(tape):
                 await st.clear()
             spans[p["id"]][1] = world.trace.log("op-end", id=p["id"], task=p["task"], op=op[0])
 
+        async def child(st, c):
+            if c["delay"]:
+                await asyncio.sleep(c["delay"])
+            if open_edit[0]:
+                world.probe("spawned-task-writes-during-edit-block")
+            await do(st, c)
+
         async def task(t):
             st = store_for(t)
             for p in [p for p in plan if p["task"] == t]:
@@ -226,24 +284,33 @@ def run(tape):
                     await asyncio.sleep(p["delay"])
                 await do(st, p)
         await asyncio.gather(*[task(t) for t in range(ntasks)])
+        if children:
+            await asyncio.gather(*children)
         final = await store_for(0).get_state()
         fin = json.loads(json.dumps(dict(final._data)))
         world.trace.log("final", state=fin)
-        # serial orders consistent with precedence
-        ids = [p["id"] for p in plan]
-        ops = {p["id"]: p["op"] for p in plan}
-        pred = {a: {b for b in ids if spans[b][1] < spans[a][0]} for a in ids}
+        # serial orders consistent with precedence; a cancelled call is optional (it took effect completely or not at all)
+        allp = [p for p in plan + spawned if p["id"] in spans]
+        ops = {p["id"]: p["op"] for p in allp}
+        opt = sorted(cancelled_ops)
         ok = False
-        for order in itertools.permutations(ids):
-            pos = {x: i for i, x in enumerate(order)}
-            if any(pos[b] > pos[a] for a in ids for b in pred[a]):
-                continue
-            s = {}
-            for x in order:
-                s = apply(s, ops[x])
-            if s == fin:
-                ok = True
+        for mask in range(1 << len(opt)):
+            dropped = {opt[i] for i in range(len(opt)) if mask >> i & 1}
+            ids = [p["id"] for p in allp if p["id"] not in dropped]
+            pred = {a: {b for b in ids if spans[b][1] is not None and spans[b][1] < spans[a][0]} for a in ids}
+            for order in itertools.permutations(ids):
+                pos = {x: i for i, x in enumerate(order)}
+                if any(pos[b] > pos[a] for a in ids for b in pred[a]):
+                    continue
+                s = {}
+                for x in order:
+                    s = apply(s, ops[x])
+                if s == fin:
+                    ok = True
+                    break
+            if ok:
                 break
+        ids = [p["id"] for p in allp]
         if not ok:
             # name a completed write that vanished: an inc whose effect is missing in every explanation
             n_inc = sum(1 for p in plan if p["op"][0] == "inc")
